@@ -4,7 +4,7 @@ PROPERTY = {'id': 'C09',
                'xdoctest.doctest_example:DocTest.failed_line_offset',
                'xdoctest.doctest_example:DocTest.failed_lineno',
                'xdoctest.runner:_run_examples',
-               'xdoctest.doctest_example:DocTest._post_run',
+               'xdoctest.doctest_example:DocTest._post_run', 'xdoctest.doctest_example:DocTest.anything_ran',
                'xdoctest.doctest_example:DocTest._parse',
                'xdoctest.doctest_example:DocTest._pre_run',
                'xdoctest.doctest_example:DocTest._import_module',
